@@ -14,6 +14,10 @@ Proof. intro H. unfold flat. symmetry. apply Z.mod_unique with k; lia. Qed.
 Lemma codec_rot T K k j : 0 <= j < T -> align_quat_index (flat T k j) T K = k.
 Proof. intro H. unfold align_quat_index. apply flat_div; exact H. Qed.
 
+(** candidate (rotation k, template j) is scored under the mask rotated by rotation k -- in align and in landscape *)
+Lemma codec_mask T K k j : 0 <= j < T -> mask_rot_index (flat T k j) T K = k.
+Proof. intro H. unfold mask_rot_index. apply flat_div; exact H. Qed.
+
 Lemma codec_fit T k j : 0 <= j < T ->
   fit_task_quat_index (flat T k j) T = k /\ fit_result_quat_index (flat T k j) T = k /\ fit_result_label (flat T k j) T = j.
 Proof.
